@@ -57,8 +57,13 @@ def _key_of(eng, k, row):
     return None
 
 
-def rule_pivotshape(P) -> RuleResult:
-    res = RuleResult('R-PIVOTSHAPE')
+def rule_pivotshape_deep(P):
+    return rule_pivotshape(P, deep=True)
+
+
+def rule_pivotshape(P, deep=False) -> RuleResult:
+    """deep: 3 to 6 result columns and every ordered pair of distinct pivot columns."""
+    res = RuleResult('R-PIVOTSHAPE-DEEP' if deep else 'R-PIVOTSHAPE')
     res.exhaustive = True
     fi = P.func(QX, 'execute_query')
     construct = fi.fq + ':pivot'
@@ -66,7 +71,10 @@ def rule_pivotshape(P) -> RuleResult:
 
     def fail(detail, msg):
         res.fail(construct, 'pivotshape:' + detail, msg, loc(fi))
-    for ncols, pivots in ((4, (2, 0)), (3, (2, 0)), (3, (0, 1))):
+    cases = ((4, (2, 0)), (3, (2, 0)), (3, (0, 1)))
+    if deep:
+        cases = [(n, (a, b)) for n in (3, 4, 5, 6) for a in range(n) for b in range(n) if a != b]
+    for ncols, pivots in cases:
         col1, col2 = pivots
         others = [i for i in range(ncols) if i not in pivots]
         nother = len(others)
